@@ -208,6 +208,13 @@ func runC09(cfg *config) *Report {
 						}
 					}
 				}
+				// VALID dates that a hand-written calendar gets wrong (leap day of a century year, of an ordinary leap year,
+				// a month end): accepted for writing, they must be read back
+				if kindOfConv(w.Conv) == 'D' {
+					for _, d := range [][3]int{{2000, 2, 29}, {2024, 2, 29}, {2019, 12, 31}} {
+						vals = append(vals, namedVal{fmt.Sprintf("date:%04d-%02d-%02d", d[0], d[1], d[2]), FV{K: 'D', Y: d[0], M: d[1], D: d[2]}})
+					}
+				}
 				for _, cl := range vals {
 					fv := cl.fv
 					key := recName + "." + w.Src + "/" + cl.name
